@@ -154,9 +154,9 @@ def scatter (n : Nat) (C : List Nat) (x : List α) : List α :=
     | some a => x.getD a 0
     | none => 0
 
-/-- run-time certificate that `C` is closed: no positive entry of a row in `C` lies outside `C`.
-    (The driver evaluates it on every class it reports; `QE.C02.stationaryDists_row` turns a
-    passed certificate into invariance of the reported row.) -/
+/-- `C` is closed: no positive entry of a row in `C` lies outside `C`. The driver prints it for
+    every class it reports (`closed=1`); `QE.C02.closedB_holds` proves it always holds for the
+    classes of `recClasses`, so it is a redundant self-check, not an assumption. -/
 def closedB (n : Nat) (P : M α) (C : List Nat) : Bool :=
   C.all fun c => (List.range n).all fun j => C.contains j || decide (P.get c j ≤ 0)
 
